@@ -133,7 +133,9 @@ Definition iter_next (dbg : bool) (d : dparams) (it : cfi_iter) : res (option in
       | Ok (i, rest) =>
           (Ok (Some i), {| it_off := it_off it + consumed (it_bytes it) rest; it_bytes := rest |})
       | Err e =>
-          (Err e, {| it_off := it_off it + N.of_nat (length (it_bytes it)); it_bytes := [] |})
+          (* `self.input.empty()`: the reader keeps the position it had reached inside the failed
+             instruction (not observable: the iterator yields None from now on) and has no bytes left *)
+          (Err e, {| it_off := it_off it; it_bytes := [] |})
       | Panic => (Panic, it)
       | OutOfFuel => (OutOfFuel, it)
       end
